@@ -74,13 +74,19 @@ func execDecv(in string) string {
 	f := fields(in)
 	b := parseHexTok(f[1])
 	out := []string{
-		guard(func() string { _, err := psatoken.DecodeAndValidateClaimsFromCBOR(append([]byte{}, b...)); return okErr(err) }),
+		guard(func() string {
+			_, err := psatoken.DecodeAndValidateClaimsFromCBOR(append([]byte{}, b...))
+			return okErr(err)
+		}),
 		guard(func() string { _, err := psatoken.DecodeClaimsFromCBOR(append([]byte{}, b...)); return okErr(err) }),
 	}
 	env := append([]byte{0xd2, 0x84, 0x43, 0xa1, 0x01, 0x26, 0xa0}, cborBstr(b)...)
 	env = append(env, 0x41, 0x00)
 	out = append(out,
-		guard(func() string { _, err := psatoken.DecodeAndValidateEvidenceFromCOSE(append([]byte{}, env...)); return okErr(err) }),
+		guard(func() string {
+			_, err := psatoken.DecodeAndValidateEvidenceFromCOSE(append([]byte{}, env...))
+			return okErr(err)
+		}),
 		guard(func() string { _, err := psatoken.DecodeEvidenceFromCOSE(append([]byte{}, env...)); return okErr(err) }))
 	return strings.Join(out, " ")
 }
@@ -119,6 +125,15 @@ func genC08(tier string, seed uint64, emit func(string)) {
 		}
 		nj++
 	})
+	// the gates of an extension profile that has a rule of its own
+	for i := 0; i < 120; i++ {
+		c := validClaims(2, r)
+		extra := []string{"_", "-1", "0", "5", "-70000", "9"}[r.intn(6)]
+		if r.intn(4) == 0 {
+			c[tNonce] = "[" + rep(31, 7) + "]"
+		}
+		emit("XGATE " + extra + " " + c.String())
+	}
 	// decoding gates: the C04 tokens
 	genC04(tier, seed, func(line string) {
 		if strings.HasPrefix(line, "DEC ") {
